@@ -32,6 +32,7 @@ struct ApiOpts {
 	bool everyVertexUsed = true;
 	bool segments = false;           // FO4/FO76: random segmentation
 	bool partitions = false;         // LE/SSE/FO3: random partition assignment
+	bool usedObject = false;         // the NifFile object has held another file before Create() (see useObject)
 	bool texturing = false;          // OB/FO3: shapes also get a NiTexturingProperty with source textures in a random subset of the ten slots
 	bool modelSpace = false;         // SK/SSE: shaders use model-space normals (cloning / conversion drop normals and tangents then)
 };
@@ -55,6 +56,13 @@ ApiModel buildApiModel(uint64_t seed, int variant, const ApiOpts* opts = nullptr
 namespace vf {
 // Applies `n` random public-API edits to a model (renames, shape/vertex/block deletion, added nodes and extra data,
 // texture changes, cloning, explicit sort/prune).  Returns a textual log of the operations.
+// Brings a NifFile object into a *used* state before it receives the model under test (objects are reused by applications: Load after Load,
+// Create after Load, assignment over a loaded file): a loaded real sample, a loaded sample one of whose block types is unknown to the
+// library, or a created model with a few blocks.  Returns a description of what was put into the object.
+std::string useObject(NifFile& n, Rng& rng);
+// a real sample (with size table) one of whose block types is re-labelled to a name the library does not know
+std::string sampleWithUnknownType(Rng& rng, std::string* desc = nullptr);
+
 // attaches a NiTexturingProperty whose slots (a seeded subset of the ten, never empty) name fresh NiSourceTexture blocks; OB / FO3 models
 void addTexturingProperty(NifFile& nif, NiShape* shape, Rng& rng, const std::vector<std::string>& paths);
 std::string applyRandomEdits(NifFile& nif, Rng& rng, int n);
